@@ -138,7 +138,7 @@ def run(ck: Check) -> int:
         try:
             for d in ('a/b', 'a/.h', 'c'):
                 os.makedirs(os.path.join(tmp, d))
-            for f in ('x.txt', '.hid', 'a/y.txt', 'a/b/z', 'c/w.py', 'a/.h/q'):
+            for f in ('x.txt', '.hid', 'a/y.txt', 'a/b/z', 'c/w.py', 'a/.h/q', 'two\nlines.txt', 'a/b/x\ny'):   # names with a newline: seeded change C18d
                 open(os.path.join(tmp, f), 'w').close()
             os.symlink('a', os.path.join(tmp, 'la'))
             for p in ['*', '**', '**/*.txt', 'a/*', '*/', '**/', '.*', '{a,c}/*', 'a/**/z', '!(a)', '**/[xyz]*'] + [P.gen_path(R) for _ in range(150 if quick else 1500)]:
